@@ -254,20 +254,31 @@ Theorem C14x_delay_paths_preserved : forall delay delay' dur dur',
   forall v c, hpath g' delay' dur' i0' r0' (phi v) c <-> hpath g delay dur i0 r0 v c.
 Proof. exact (hpath_iff g g' phi Hinj Hnodes Hadj i0 i0' r0 r0' Hi0 Hr0). Qed.
 
-(* discrete_SIR with a table transmission test, ANY two set-iteration orders and pick rules: identical rows; in full-data
+(* discrete_SIR with a table transmission test (initial_recovereds None or a list), ANY two set-iteration orders and pick rules: identical rows; in full-data
    mode the per-node histories of the copy are the per-node histories of the original mapped through phi *)
 Theorem C14x_discrete_SIR_relabel_invariant : forall tt tt', (forall u v, tt' (phi u) (phi v) O = tt u v O) ->
-  wf_inputb g i0 r0 = true -> wf_inputb g' i0' r0' = true ->
-  forall pick pick' ord ord' tmin tmax full fuel fuel',
+  wf_inputb g i0 r0 = true ->
+  forall r0o r0o' pick pick' ord ord' tmin tmax full fuel fuel',
+  opt_list r0o = r0 -> opt_list r0o' = r0' ->
   perm_oracle ord -> perm_oracle ord' -> (length (gnodes g) < fuel)%nat -> (length (gnodes g') < fuel')%nat ->
   exists out out',
-    discrete_SIR g (det_rules tt pick) None ord (Some i0) (Some r0) None tmin tmax full fuel = Ret out /\
-    discrete_SIR g' (det_rules tt' pick') None ord' (Some i0') (Some r0') None tmin tmax full fuel' = Ret out' /\
+    discrete_SIR g (det_rules tt pick) None ord (Some i0) r0o None tmin tmax full fuel = Ret out /\
+    discrete_SIR g' (det_rules tt' pick') None ord' (Some i0') r0o' None tmin tmax full fuel' = Ret out' /\
     so_rows (o_sim out') = so_rows (o_sim out) /\
     (if full then exists h h', option_map fd_hist (so_full (o_sim out)) = Some h /\ option_map fd_hist (so_full (o_sim out')) = Some h' /\
                                Permutation h' (relabel_hist phi h)
      else so_full (o_sim out) = None /\ so_full (o_sim out') = None).
 Proof. exact (dsir_relabel_invariant g g' phi Hinj Hnodes Hadj i0 i0' r0 r0' Hi0 Hr0). Qed.
+
+(* the copy is inside the simulators' domains as soon as the original is *)
+Theorem C14x_sim_domains_transported :
+  (wf_inputb g i0 r0 = true -> wf_inputb g' i0' r0' = true) /\
+  (forall delay delay' dur dur', (forall u v, delay' (phi u) (phi v) = delay u v) -> (forall u, dur' (phi u) = dur u) ->
+   forall tmin tmax, esir_okb g delay dur i0 r0 tmin tmax = true -> esir_okb g' delay' dur' i0' r0' tmin tmax = true).
+Proof.
+  exact (conj (wf_inputb_iso g g' phi Hinj Hnodes Hadj i0 i0' r0 r0' Hi0 Hr0)
+              (esir_okb_iso g g' phi Hinj Hnodes Hadj i0 i0' r0 r0' Hi0 Hr0)).
+Qed.
 
 (* fast_nonMarkov_SIR with tables of delays / durations, ANY two tie policies of the priority queue: who is infected,
    every infection time, every recovery time and every final status are mapped through phi (the outputs are built from
@@ -275,7 +286,7 @@ Proof. exact (dsir_relabel_invariant g g' phi Hinj Hnodes Hadj i0 i0' r0 r0' Hi0
 Theorem C14x_fast_nonMarkov_SIR_relabel_invariant : forall delay delay' dur dur',
   (forall u v, delay' (phi u) (phi v) = delay u v) -> (forall u, dur' (phi u) = dur u) ->
   forall tb tb' tmin tmax fuel fuel',
-  esir_okb g delay dur i0 r0 tmin tmax = true -> esir_okb g' delay' dur' i0' r0' tmin tmax = true ->
+  esir_okb g delay dur i0 r0 tmin tmax = true ->
   (esir_fuel g i0 <= fuel)%nat -> (esir_fuel g' i0' <= fuel')%nat ->
   exists sF sF',
     esir_run tb g delay dur i0 r0 tmin tmax fuel = Ok sF /\
@@ -342,6 +353,7 @@ Print Assumptions C14x_iso_output_nontrivial.
 Print Assumptions C14x_bfs_generations_preserved.
 Print Assumptions C14x_delay_paths_preserved.
 Print Assumptions C14x_discrete_SIR_relabel_invariant.
+Print Assumptions C14x_sim_domains_transported.
 Print Assumptions C14x_fast_nonMarkov_SIR_relabel_invariant.
 Print Assumptions C14x_sim_hypotheses_satisfiable.
 Print Assumptions C14x_sim_nontrivial.
